@@ -7,9 +7,12 @@
                          definitions were looked at
   R-C16-buckets          per rule and test case: no expectation => skipped bucket only (never failed); matched => passed;
                          unmatched => failed (structured and plain reporter)
+  R-C16-junit-counts     the JUnit rendering agrees with the others on what failed: build_junit_test_cases emits one Pass element per
+                         entry of passed_rules and one Fail element per entry of failed_rules, and the suite's `failures`
+                         attribute is accumulated from the LENGTH of failed_rules of every test case (not from a count of test cases)
 Exit codes of `test` are decided by C06.  Not claimed: agreement of the serde_yaml input loader with validate's loader.
 """
-from engine import ai, mirlib as M
+from engine import ai, flow, mirlib as M
 from engine import statusmon as S
 from engine.statusmon import Mon
 
@@ -192,11 +195,150 @@ def buckets(ctx, cr):
         ctx.ob(rule, rule + ":generic", False, "undecided %s" % e, fn=f)
 
 
+TS = "commands::reporters::test::structured::"
+
+
+def field_of_receiver(cr, f, operand):
+    from rules.c04 import receiver_field
+    return receiver_field(cr, f, operand)
+
+
+def junit_counts(ctx, cr):
+    rule = "R-C16-junit-counts"
+    # (1) one element of the matching kind per entry of each bucket
+    k = TS + "TestCase::build_junit_test_cases"
+    f = cr.fns.get(k)
+    if not f:
+        ctx.lost(rule, rule + ":elements", k)
+    else:
+        pairs = set()
+
+        class H(ai.Hooks):
+            def call(self, a, st, term, callee, args):
+                p = M.norm_path(callee.get("path", ""))
+                decl = M.norm_path(callee.get("decl", ""))
+                mon = st.mon or Mon()
+                if st.top is not st.frames[0]:
+                    return None
+                if decl == "std::iter::IntoIterator::into_iter":
+                    fld = field_of_receiver(cr, f, term["args"][0])
+                    return [(("sym", "ITER:%s" % fld), mon)]
+                if decl == "std::iter::Iterator::next" and term.get("to") is not None:
+                    it = a.resolve(st, args[0])
+                    if it[0] == "ref":
+                        it = a.resolve(st, a.read_at(st, it[1], it[2]))
+                    name = it[1] if it[0] == "sym" else "?"
+                    key = "n:" + name
+                    if mon.get(key):
+                        return [(("enum", ai.OPTION, 0, ()), mon.set(cur=None))]
+                    return [(("enum", ai.OPTION, 1, (("ref", ("X", "ELEM:" + name), ()),)), mon.set(cur=name, **{key: 1})), (("enum", ai.OPTION, 0, ()), mon.set(cur=None))]
+                if p == "std::vec::Vec::push":
+                    v = a.resolve(st, args[1])
+                    variant = None
+
+                    def find(x, depth=0):
+                        nonlocal variant
+                        if depth > 4 or not isinstance(x, tuple):
+                            return
+                        if x and x[0] == "enum" and str(x[1]).endswith("TestCaseStatus"):
+                            ad = cr.adts.get(x[1])
+                            variant = ad["variants"][x[2]]["name"] if ad else str(x[2])
+                            return
+                        for y in x:
+                            find(y, depth + 1)
+                    find(v)
+                    pairs.add((mon.get("cur"), variant))
+                    return [(("tuple", ()), mon)]
+                return None
+        a = ai.AI(cr, H())
+        try:
+            a.run(k, mon=Mon())
+            ctx.states += a.n_states
+            want = {("ITER:passed_rules", "Pass"), ("ITER:failed_rules", "Fail")}
+            allowed = want | {("ITER:skipped_rules", "Skip"), ("ITER:skipped_rules", "Skipped")}
+            ctx.ob(rule, rule + ":elements", want <= pairs and pairs <= allowed, "pushes %s, expected one Pass per passed_rules entry and one Fail per failed_rules entry (skipped rules, if rendered, from skipped_rules)" % sorted(map(str, pairs)), fn=f,
+                   sample={"pushes": sorted(map(str, pairs))})
+        except ai.Undecided as e:
+            ctx.ob(rule, rule + ":elements", False, "undecided %s" % e, fn=f)
+    # (2) the failures attribute is the sum of failed_rules.len()
+    k = TS + "TestResult::build_test_suite"
+    f = cr.fns.get(k)
+    if not f:
+        ctx.lost(rule, rule + ":failures-attribute", k)
+        return
+    news = [t for bi, t in M.iter_calls(f) if M.norm_path(t["fn"].get("path", "")).endswith("reporters::TestSuite::new") and M.op_place(t["args"][4]) is not None]
+    if len(news) != 1:
+        ctx.lost(rule, rule + ":failures-attribute", "TestSuite::new with a computed failures argument: %d sites" % len(news))
+        return
+    fl = M.place_local(M.op_place(news[0]["args"][4]))
+    calls, consts, locs = flow.backward_slice(f, fl)
+    evidence = [(M.norm_path(c["fn"].get("path", "")), None) for c in calls]
+    # closures that capture the counter by &mut: what they add to it
+    for bi, si, st in M.iter_stmts(f):
+        rv = st.get("rv")
+        if not (rv and rv["r"] == "agg" and rv.get("ak") == "closure"):
+            continue
+        body = cr.fns.get(rv["key"])
+        if not body:
+            continue
+        for i, o in enumerate(rv["ops"]):
+            pl = M.op_place(o)
+            if pl is None:
+                continue
+            c2, _, l2 = flow.backward_slice(f, M.place_local(pl))
+            if not (set(locs) & set(l2)):
+                continue
+            evidence += upvar_update_calls(cr, body, i)
+    # one level into local callees
+    more = []
+    for path, fld in evidence:
+        cal = cr.fns.get(path)
+        if cal and fld is None:
+            cc, _, _ = flow.backward_slice(cal, 0)
+            more += [(M.norm_path(c["fn"].get("path", "")), field_of_receiver(cr, cal, c["args"][0]) if c["args"] else None) for c in cc]
+    evidence += more
+    lens = [e for e in evidence if e[0].endswith("Vec::len") and e[1] == "failed_rules"]
+    counts = sorted(set(e[0] for e in evidence if e[0].split("::")[-1] in ("count", "filter", "any", "is_empty", "has_failures")))
+    ok = bool(lens) and not counts
+    ctx.ob(rule, rule + ":failures-attribute", ok, "failures is accumulated from failed_rules.len() of every test case" if ok else
+           "the JUnit failures attribute is computed through %s and %s failed_rules.len(): it no longer equals the number of <failure> elements" % (counts or "-", "with" if lens else "without"),
+           fn=f, line=news[0].get("ln", 0), sample={"evidence": sorted(set("%s(%s)" % (e[0].split("::")[-1], e[1]) for e in evidence))})
+
+
+def upvar_update_calls(cr, body, idx):
+    """calls on the slices of the values a closure writes through its idx-th captured reference"""
+    ptrs = set()
+    for bi, si, st in M.iter_stmts(body):
+        rv = st.get("rv")
+        if rv and isinstance(st["p"], int) and rv["r"] in ("use", "ref"):
+            src = M.op_place(rv["o"]) if rv["r"] == "use" else rv["p"]
+            if src is not None and not isinstance(src, int) and M.place_local(src) == 1:
+                fs = [pr for pr in M.place_projs(src) if isinstance(pr, list) and pr[0] == "f"]
+                if fs and fs[0][1] == idx:
+                    ptrs.add(st["p"])
+    out = []
+    for bi, si, st in M.iter_stmts(body):
+        rv = st.get("rv")
+        if not rv or isinstance(st["p"], int):
+            continue
+        base = M.place_local(st["p"])
+        direct = base == 1 and any(isinstance(pr, list) and pr[0] == "f" and pr[1] == idx for pr in M.place_projs(st["p"]))
+        if base in ptrs or direct:
+            for key in ("o", "a", "b"):
+                if key in rv:
+                    pl = M.op_place(rv[key])
+                    if pl is not None:
+                        cc, _, _ = flow.backward_slice(body, M.place_local(pl))
+                        out += [(M.norm_path(c["fn"].get("path", "")), field_of_receiver(cr, body, c["args"][0]) if c["args"] else None) for c in cc]
+    return [(p, fld if p.endswith("Vec::len") else None) for p, fld in out]
+
+
 def run(ctx):
     cr = ctx.lib
     same_core(ctx, cr)
     status_match(ctx, cr)
     buckets(ctx, cr)
+    junit_counts(ctx, cr)
     ctx.assumptions += [
         "JSON / YAML / JUnit renderings are produced from the same TestResult value by serde / quick-xml (dependencies)",
         "the SKIP expectation is decided up to the abstraction: equality of the skip counter with the number of definitions is not modelled",
